@@ -126,8 +126,8 @@ def displaybpm(
     timing fields, the chart will be used as the source of timing.
     """
     properties = timing_source(simfile, ssc_chart)
-    if "DISPLAYBPM" in properties and not ignore_specified:
-        displaybpm_value = properties["DISPLAYBPM"]
+    displaybpm_value = properties.get("DISPLAYBPM")
+    if displaybpm_value is not None and not ignore_specified:
         try:
             if displaybpm_value == "*":
                 return RandomDisplayBPM()
